@@ -1,7 +1,11 @@
 """C17 entry for driver/props.py (merged by the maintainer)."""
 
+# The CLI sub-workload needs the command-line binary of the working tree: `prebuild` makes the driver build it
+# (cargo build --release --offline --manifest-path /repo/debugger/Cargo.toml --bin pest_debugger) and pass
+# `--cli <path>` to every shard and to --replay of a {"cli": true, ...} witness.
 SPEC = dict(
-    runs=[dict(bin="mon_dbg", sub="c17", features="", config="default", shards=16)],
+    runs=[dict(bin="mon_dbg", sub="c17", features="", config="default", shards=16,
+               prebuild=[dict(manifest="/repo/debugger/Cargo.toml", bin="pest_debugger", opt="cli")])],
     rule=("A case is one HISTORY: (grammar, input, controller operation sequence, delay seed). Grammars: generator G, profile no-stack, <= 4 rules, "
           "accepted by parse_and_optimize, plus three hand-written ones (the grammar of the debugger's own tests among them); every rule can be a "
           "start rule; inputs from vmon::inputs::inputs_for; a (rule, input) pair is used only if the reference interpreter finishes on it within "
@@ -26,6 +30,17 @@ SPEC = dict(
           "returned, the previous parser thread's th_exit must be in the log (run_joined itself is not required); if it is not, the OLD receiver is kept and "
           "watched until it disconnects, a Breakpoint arrives, or 3 x (measured plain parse time) + 1 s (300 ms for ordinary histories) have passed, and what it "
           "delivered goes into the witness. "
+          "CLI SUB-WORKLOAD (only with `--cli <path to the pest_debugger binary>`, built by the driver from the working tree; otherwise counted as "
+          "cli_histories_skipped): 40 histories per shard (thorough 2,000), one spawned `pest_debugger --no-update` process per history, driven over stdin: "
+          "`g <temp grammar file>`, `id <input>` (inputs without control characters or outer whitespace), then the API history generator's output restricted "
+          "to what the command line can express (b, d, ba, da, r, c, l; r and c wait for their one event themselves), every command followed by `l`, whose "
+          "`Breakpoints: ...` line delimits the command's output and must equal the model's sorted set. Judged with the same model: each r / c must print "
+          "exactly the next expected report - a stop (compared: the `--> LINE:COL` and the `= parsing <rule>` it prints), `end-of-input reached`, the plain "
+          "VM error text, `Error: Run rule first` before any run, and after the end `Error: End-of-input reached` or nothing (the inherent window); a restart "
+          "typed while stopped must start the new session (the next reports are the new parse's); no `panicked at` / `Previous parsing execution panic` text "
+          "on stdout or stderr. The front end's own `parsing timed out` (its 5 s wait) in place of a report is inconclusive, not a violation. Witness = "
+          "{\"cli\": true, grammar, input, commands}. Counters: cli_histories, cli_commands, cli_reports_checked, cli_stops_checked, cli_conts, "
+          "cli_restarts_while_stopped, cli_restarts_after_end. "
           "Each history runs under verif::reset(seed) with a fresh non-zero seed (1 in 10: seed 0 = no injected delays): hook H4 logs every named "
           "point of both threads with a global sequence number and then delays the calling thread (nothing / yield / 5-65 us spin / 50-350 us sleep / "
           "1-3 ms sleep); the controller writes its own records (call and return of run/cont, every received event, edits, probes) into the same log. "
@@ -77,7 +92,11 @@ SPEC = dict(
                 "old parse never ended); and on two independently seeded defects: the listener reading the breakpoint set with try_lock (a hit is "
                 "skipped when the controller holds the lock: event_mismatch in a noisy history in all 16 shards, after 1-63 histories per shard) and "
                 "run() detaching the previous session after 250 ms (previous_session_not_terminated_when_run_returned with the stale Breakpoint on the "
-                "old channel in the witness, at the first slow-parse history of all 16 shards). Thorough tier: the same binary built with -Zsanitizer=thread (-Zbuild-std) runs ~2,000 histories as a "
+                "old channel in the witness, at the first slow-parse history of all 16 shards); and on three second-round seeded defects: delete_all "
+                "replacing the shared set (event_mismatch after 1-8 API histories in all 16 shards), the VM dispatching reserved built-ins before the "
+                "listener (breakpoints on ANY/EOI dropped: event_mismatch after 1-65 API histories in all 16 shards; the expected entry sequence comes from "
+                "hook H3, not from a listener), and the CLI dropping the previous receiver before context.run (cli_report_mismatch `Error: Previous parsing "
+                "execution panic` at every restart typed while stopped: first at CLI history 1-12 of every shard). Thorough tier: the same binary built with -Zsanitizer=thread (-Zbuild-std) runs ~2,000 histories as a "
                 "secondary monitor for data races in the debugger's shared state and std's park/channel."),
     technique="runtime monitoring: schedule stress with seeded delay injection at cfg-guarded hook points + offline trace checker over a globally sequenced two-thread event log (plain listener-VM parse as oracle); ThreadSanitizer as a secondary layer in the thorough tier",
     assumptions=[
@@ -85,6 +104,8 @@ SPEC = dict(
         "breakpoint edits THAT CAN CHANGE THE OUTCOME are made only before run, between a received Breakpoint event and its cont, or after the final event, so the set in force at each rule entry is determined by the controller's own record order; while the parse is running only outcome-neutral commands are issued (list_breakpoints, add and delete of a name that is not a rule and that no parse enters)",
         "the slow-parse histories' re-run right after a cont relies on the calibrated stretch (>= 300 ms measured, else the variant is not run) being far longer than the controller's reaction time, so that nothing was delivered since the last received event; the executor still checks with try_recv, and a stall of such a re-run is inconclusive, never a violation",
         "when run returns, the previous parser thread must already have logged th_exit (the statement's 'starting a new run always terminates the previous one' read as: terminated by the time run has returned); the unchanged run() joins it, so this holds however long the old rule takes",
+        "the CLI sub-workload observes only what main.rs prints; of a stop only the rule name and LINE:COL are compared (positions are byte offsets converted by the naive definition: inputs are single lines); it needs the driver to build the binary and pass --cli",
+        "a plain parse that needs more than 1,000,000 calls or more than 200,000 hook events is excluded (counted), although the reference interpreter finished on it",
         "error texts longer than 600 bytes (they quote the whole input line) are compared by prefix, length and FNV-1a hash",
         "after a mid-parse re-run the aborted parse may still put its own final Eof/Error into the OLD channel; the statement does not speak about it and it is permitted (a Breakpoint there is a violation)",
         "cont after the final event must answer Err(EofReached) only once the parser thread's th_exit is logged; inside the window between the final send and is_done.store(true) either answer is accepted",
